@@ -229,5 +229,16 @@ def check_C20(tier):
               edges=[zoo.E("s.out", "a.in"), zoo.E("a.out", "b.x"), zoo.E("b.out", "c.x")])
     recreate(w8, "chain resumed after its first and last file were removed", remove_then_rerun=["a.out_1.txt", "c.out_b.out_a.out_1.txt"])
     recreate(w4, "pipeline with a failing first stage, ';' list with a failing command, unset variable")
+    # in-paths that are not blank-delimited words of the command: after a redirection operator, as an option value, quoted, joined with a comma
+    w9 = dict(name="RC9", max=2, bufsize=4,
+              procs=[zoo.src("s", ["1", "2"]),
+                     dict(name="u", kind="cmd", ins=["in"], outs=["out"], outpaths={"out": "./u_{i:in|basename}"}, arg="tr a-z A-Z <{i:in} >{o:out}"),
+                     dict(name="d", kind="cmd", ins=["in"], outs=["out"], outpaths={"out": "./d_{i:in|basename}"}, arg="dd if={i:in} of={o:out} 2>/dev/null"),
+                     dict(name="q", kind="cmd", ins=["in"], outs=["out"], outpaths={"out": "./q_{i:in|basename}"}, arg="cat \"{i:in}\" > {o:out}; echo q >> {o:out}"),
+                     dict(name="ss", kind="substream"),
+                     dict(name="cat", kind="cmd", ins=["in"], outs=["out"], joins={"in": ","}, outpaths={"out": "./merged9.txt"},
+                          arg="cat $(echo {i:in|join:,} | tr , ' ') > {o:out}")],
+              edges=[zoo.E("s.out", "u.in"), zoo.E("u.out", "d.in"), zoo.E("d.out", "q.in"), zoo.E("q.out", "ss.in"), zoo.E("ss.substream", "cat.in")])
+    recreate(w9, "in-paths after a redirection operator, as an option value, inside quotes and joined with a comma")
     chk.sample(dict(kind="audit-trees", exported_by_tlc=len(cases), converted=len(pick), example=pick[0]["tree"] if pick else None))
     return chk.finish()
